@@ -63,6 +63,19 @@ CLAIMS = {
              "restore_empty (home, DECOM cleared), stack_discipline (for every one of the 43 operations incl. draw, resize, DECCOLM: the stack changes only by DECSC push / DECRC pop), "
              "restore_after_save_stack, C14_holds. propC14 is evaluated on every transition of the crate (stack unchanged by other calls).",
         technique=TECH, design="7 (C14)"),
+    "C15": dict(
+        text="Theorems C15.reset_eq / reset_is_new_screen (after RIS every field except the saved-cursor stack equals that of a newly constructed screen of the current size, for every prior state), "
+             "reset_dirty (exactly the rows of the screen are dirty), reset_forgets (whatever happened before), default_modes, dispatch_RIS, C15_holds. The continuation clause "
+             "(same input, same state afterwards) follows in the model from reset_is_new_screen because every operation is a function of the state; on the implementation it is decided by the "
+             "model-free metamorphic run state(h, RIS, t) = state(new screen, t) over generated h, t (t without DECRC), plus propC15 on every reset transition.",
+        technique=TECH + "; model-free metamorphic runs on the implementation", design="7 (C15)",
+        note="The relational continuation theorem modulo the saved-cursor stack (stack of the reset screen = stack of the fresh one with the old stack underneath) is not yet a Lean theorem; it is covered by the metamorphic runs."),
+    "C16": dict(
+        text="Theorems C16.resize_spec (for every well-formed state and target size: new geometry, margins cleared, exactly the new rows dirty, cell (y,x) = old cell (y+d,x) with d rows dropped "
+             "from the top, blank elsewhere), resize_same (same size = identity), kept_resize (modes, tab stops, titles, charsets, stack, rendition untouched), resize_cursor (cursor inside the new bounds), "
+             "resize_wellformed (nothing stored outside the new grid), shrink_then_grow (the regained area is blank), C16_holds. propC16 is evaluated on every resize transition of the crate and "
+             "every dumped buffer is checked for keys outside the grid.",
+        technique=TECH, design="7 (C16)"),
     "C18": dict(
         text="Theorems C18.tabs_initial/tabs_after_reset (stops at 8,16,..<columns), hts/tbc_* (set algebra, other selectors no-op), ht (nearest stop strictly right, "
              "else last column, never beyond, nothing else changes) and C18_holds for the executable predicate, for every width and stop set. propC18 is evaluated on the crate's transitions.",
